@@ -113,10 +113,15 @@ func main() {
 				nat++
 				if o.Status == "unsat" {
 					natOK++
+				} else if *dump {
+					fmt.Printf("fold-miss %s %s | %.150s\n", o.ID, o.Status, o.Desc)
 				}
 			}
 		}
 		res.Obls = dropAtoms(res.Obls)
+		if strings.Contains(*prop, "@") {
+			res.Obls = filterVariant(res.Obls, *prop)
+		}
 		if nat > 0 {
 			fmt.Printf("folded predicate instances: %d tried, %d proved\n", nat, natOK)
 		}
@@ -226,6 +231,19 @@ func runProperty(e *Engine, prop, tier, propsFile, evidence, replays, knownFile 
 		for _, l := range res.Lemmas {
 			if !lemmaSeen[l] {
 				lemmaSeen[l] = true
+				if strings.HasPrefix(l, "func:") {
+					// step lemma (a lemma function): verify it in this run unless it is listed already
+					have := false
+					for _, k := range keys {
+						if k == l[5:] {
+							have = true
+						}
+					}
+					if !have {
+						keys = append(keys, l[5:])
+					}
+					continue
+				}
 				keys = append(keys, "arith:"+l)
 			}
 		}
